@@ -56,11 +56,14 @@ def type_tokens(f, sp, proto=None):
     if k == 'char':
         return ['char']
     if k == 'fix':
+        n = str(f.n)
+        if sp.rng is not None and sp.pick('len_zero'):
+            n = '0' + n        # DIGITS is decimal: char[010] is ten bytes
         if f.zchar:
             if getattr(f, 'pad', None) is None and sp.pick('zchar_as_pad'):
-                return ['char[', str(f.n), ']']
-            return ['zchar[', str(f.n), ']']
-        return ['char[', str(f.n), ']']
+                return ['char[', n, ']']
+            return ['zchar[', n, ']']
+        return ['char[', n, ']']
     if k == 'dyn':
         s = f.spelling
         if sp.rng is not None and sp.pick('dyn_swap'):
@@ -125,6 +128,16 @@ def field_tokens(proto, f, sp, allow_attr=True):
     tag = getattr(f, 'tag', None)
     if tag is not None and allow_attr:
         t = ['@tag(', str(tag), ')', NL] + t
+    elif allow_attr and sp.rng is not None and sp.force.get('tag_attr') and sp.rng.random() < 0.4:
+        # wire lanes only: @tag(n) is parsed and stored but has no wire meaning; written before or after the other attributes
+        tg = ['@tag(', str(sp.rng.randint(1, 999)), ')', NL]
+        i = 0
+        if sp.rng.random() < 0.5:
+            while i < len(t) and isinstance(t[i], str) and t[i].startswith('@'):
+                while i < len(t) and t[i] is not NL:
+                    i += 1
+                i += 1
+        t = t[:i] + tg + t[i:]
     if getattr(f, '_mark', False):
         t = [MARK_BEGIN] + t + [MARK_END]
     return t
